@@ -10,7 +10,7 @@ def nStd : Nat := 2
 def facts : List InitFact := [
   -- sync/atomic.init (replacement, chained=True)
   { id := 0, hasPatchFn := false, chained := true,
-    toks := [.loadGuard, .brGuard .ret .body, .callHasPatch, .storeGuard, .brRet],
+    toks := [.loadGuard, .brGuard .ret .body, .storeGuard, .callHasPatch, .brRet],
     imports := [], goList := [] },
   -- sync/atomic.init$hasPatch (original)
   { id := 0, hasPatchFn := true, chained := true,
@@ -22,31 +22,63 @@ def facts : List InitFact := [
     imports := [], goList := [] },
   -- c12f/t0/sierra.init
   { id := 1, hasPatchFn := false, chained := false,
-    toks := [.loadGuard, .brGuard .ret .body, .callInit 0, .storeGuard, .act, .brRet],
+    toks := [.loadGuard, .brGuard .ret .body, .storeGuard, .callInit 0, .act, .brRet],
     imports := [0], goList := [0] },
   -- c12f/t0/omega.init
   { id := 2, hasPatchFn := false, chained := false,
-    toks := [.loadGuard, .brGuard .ret .body, .callInit 0, .storeGuard, .act, .brRet],
+    toks := [.loadGuard, .brGuard .ret .body, .storeGuard, .callInit 0, .act, .brRet],
     imports := [0], goList := [0] },
   -- c12f/t0/deep/mid.init
   { id := 3, hasPatchFn := false, chained := false,
-    toks := [.loadGuard, .brGuard .ret .body, .callInit 0, .callInit 1, .callInit 2, .storeGuard, .act, .brRet],
+    toks := [.loadGuard, .brGuard .ret .body, .storeGuard, .callInit 0, .callInit 1, .callInit 2, .act, .brRet],
     imports := [0, 1, 2], goList := [0, 1, 2] },
   -- c12f/t0/able.init
   { id := 4, hasPatchFn := false, chained := false,
-    toks := [.loadGuard, .brGuard .ret .body, .callInit 0, .callInit 3, .storeGuard, .act, .brRet],
+    toks := [.loadGuard, .brGuard .ret .body, .storeGuard, .callInit 0, .callInit 3, .act, .brRet],
     imports := [0, 3], goList := [0, 3] },
   -- c12f/t0/deep/bravo.init
   { id := 5, hasPatchFn := false, chained := false,
-    toks := [.loadGuard, .brGuard .ret .body, .callInit 0, .callInit 4, .callInit 2, .storeGuard, .act, .brRet],
+    toks := [.loadGuard, .brGuard .ret .body, .storeGuard, .callInit 0, .callInit 4, .callInit 2, .act, .brRet],
     imports := [0, 4, 2], goList := [0, 2, 4] },
   -- c12f/t0.init
   { id := 7, hasPatchFn := false, chained := false,
-    toks := [.loadGuard, .brGuard .ret .body, .callInit 4, .callInit 5, .callInit 0, .storeGuard, .act, .brRet],
-    imports := [4, 5, 0], goList := [0, 4, 5] }]
+    toks := [.loadGuard, .brGuard .ret .body, .storeGuard, .callInit 4, .callInit 5, .callInit 0, .act, .brRet],
+    imports := [4, 5, 0], goList := [0, 4, 5] },
+  -- c12f/t1/tr.init
+  { id := 0, hasPatchFn := false, chained := false,
+    toks := [.loadGuard, .brGuard .ret .body, .storeGuard, .act, .brRet],
+    imports := [], goList := [] },
+  -- c12f/t1/echo.init
+  { id := 1, hasPatchFn := false, chained := false,
+    toks := [.loadGuard, .brGuard .ret .body, .storeGuard, .callInit 0, .act, .brRet],
+    imports := [0], goList := [0] },
+  -- c12f/t1/deep/bravo.init
+  { id := 2, hasPatchFn := false, chained := false,
+    toks := [.loadGuard, .brGuard .ret .body, .storeGuard, .callInit 0, .act, .brRet],
+    imports := [0], goList := [0] },
+  -- c12f/t1.init
+  { id := 4, hasPatchFn := false, chained := false,
+    toks := [.loadGuard, .brGuard .ret .body, .storeGuard, .callInit 0, .callInit 2, .callInit 1, .act, .brRet],
+    imports := [0, 2, 1], goList := [0, 1, 2] },
+  -- c12f/t2/tr.init
+  { id := 0, hasPatchFn := false, chained := false,
+    toks := [.loadGuard, .brGuard .ret .body, .storeGuard, .act, .brRet],
+    imports := [], goList := [] },
+  -- c12f/t2/deep/beta.init
+  { id := 1, hasPatchFn := false, chained := false,
+    toks := [.loadGuard, .brGuard .ret .body, .storeGuard, .callInit 0, .act, .brRet],
+    imports := [0], goList := [0] },
+  -- c12f/t2.init
+  { id := 2, hasPatchFn := false, chained := false,
+    toks := [.loadGuard, .brGuard .ret .body, .storeGuard, .callInit 1, .callInit 0, .act, .brRet],
+    imports := [1, 0], goList := [0, 1] }]
 
 def entries : List EntryFact := [
   -- c12f/t0
+  { calls := [.rtInit, .runtimeInit, .mainInit, .mainMain] },
+  -- c12f/t1
+  { calls := [.rtInit, .runtimeInit, .mainInit, .mainMain] },
+  -- c12f/t2
   { calls := [.rtInit, .runtimeInit, .mainInit, .mainMain] }]
 
 end LlgoVerif.Gen.C12
